@@ -1,12 +1,17 @@
 #!/bin/sh
 # re-confirm every archived seeded change against the current /repo HEAD
+# usage: tools/seeded_all.sh [budget]   (SHARD=i/n runs every n-th seed from i)
 cd "$(dirname "$0")/.."
+X=/tmp/seedall.$$
+i=0; si=${SHARD%/*}; sn=${SHARD#*/}
 for d in seeded/S*; do
+  i=$((i+1))
+  if [ -n "$SHARD" ] && [ $((i % sn)) -ne $((si % sn)) ]; then continue; fi
   props=$(/venv/bin/python -c "import json;m=json.load(open('$d/meta.json'));print(' '.join(sorted(set(c.split(':')[0] for c in m['caught_by'])) or m['property']))")
   echo "#### $d ($props)"
-  mkdir -p /tmp/seedall && rm -rf /tmp/seedall/x && mkdir /tmp/seedall/x
-  cp $d/patch.diff /tmp/seedall/x/seed_patch.diff; cp $d/demo.py /tmp/seedall/x/seed_demo.py
+  rm -rf $X && mkdir -p $X
+  cp $d/patch.diff $X/seed_patch.diff; cp $d/demo.py $X/seed_demo.py
   base=$(/venv/bin/python -c "import json;print(json.load(open('$d/meta.json')).get('base_commit',''))")
-  SEED_BASE=${base:-HEAD} tools/seedcheck.sh /tmp/seedall/x "$props" ${1:-20} 2>&1 | grep -E "^==|^exit|PATCH|^ +[0-9]+ (C[0-9]+ |  oracle)" | cut -c1-200
+  SEED_BASE=${base:-HEAD} tools/seedcheck.sh $X "$props" ${1:-20} 2>&1 | grep -E "^==|^exit|PATCH|^ +[0-9]+ (C[0-9]+ |  oracle)" | cut -c1-200
 done
-rm -rf /tmp/seedall
+rm -rf $X
